@@ -3,6 +3,7 @@
 //
 // Case lines (one result line each):
 //   gains <dir> [what]      every gain kind (what = comma list out of eeg,ecog,meg,ip,eit,ssm,dec; default all)
+//   sweep <dir> <what> k1 k2 ...  one Geometry object, Domain::set_conductivity(k_i*sigma) in sequence, gains after each (names "<gain>@<i>")
 //   ops   <dir>             the operator matrices the gains are made of (bisection: gain kind -> operator -> entry)
 //   k <op> | x1 x2 ...      one kernel call (float wire), see kern()
 // Result of gains/ops:  "<name> <status> <nlin> <ncol> <hex doubles, column major> ; <name> ..."   status as in wire.h
@@ -13,6 +14,7 @@
 #include <set>
 #include <sys/stat.h>
 #include <unistd.h>
+#include <fcntl.h>
 #include <assemble.h>
 #include <gain.h>
 #include <sensors.h>
@@ -31,9 +33,10 @@ static bool exists(const std::string& p) { struct stat st; return stat(p.c_str()
 
 struct Out {
     std::string s;
+    std::string suffix;       // appended to every matrix name (conductivity sweep: "@<step>")
     void head(const char* name,int status,size_t nl,size_t nc) {
         if (!s.empty()) s += " ; ";
-        s += name; s += ' '; s += std::to_string(status); s += ' '; s += std::to_string(nl); s += ' '; s += std::to_string(nc);
+        s += name; s += suffix; s += ' '; s += std::to_string(status); s += ' '; s += std::to_string(nl); s += ' '; s += std::to_string(nc);
     }
     void val(double d) { char b[40]; snprintf(b,sizeof b," %a",d); s += b; }
     void mat(const char* name,const Matrix& M) {
@@ -114,16 +117,44 @@ static void decisions(Out& o,const std::string& dir,const Geometry& geo) {
     });
 }
 
-static std::string run_model(const std::string& dir,const std::string& what,const bool ops) {
-    Out o;
+static void compute(Out& o,const std::string& dir,const std::string& what,const bool ops,const Geometry& geo);
+
+static std::unique_ptr<Geometry> load_geometry(Out& o,const std::string& dir) {
     const std::string g = dir+"/model.geom", c = dir+"/model.cond";
     std::unique_ptr<Geometry> geop;
     try { geop.reset(new Geometry(g,c)); }
-    catch (std::invalid_argument&) { o.fail("geometry",ST_ASSERT); return o.s; }
-    catch (std::exception&) { o.fail("geometry",ST_OTHER); return o.s; }
-    catch (...) { o.fail("geometry",ST_OTHER); return o.s; }
-    const Geometry& geo = *geop;
+    catch (std::invalid_argument&) { o.fail("geometry",ST_ASSERT); geop.reset(); }
+    catch (std::exception&) { o.fail("geometry",ST_OTHER); geop.reset(); }
+    catch (...) { o.fail("geometry",ST_OTHER); geop.reset(); }
+    return geop;
+}
 
+static std::string run_model(const std::string& dir,const std::string& what,const bool ops) {
+    Out o;
+    std::unique_ptr<Geometry> geop = load_geometry(o,dir);
+    if (geop) compute(o,dir,what,ops,*geop);
+    return o.s;
+}
+
+// Conductivity sweep the way an API user does it: ONE Geometry object, Domain::set_conductivity(k*sigma0) for the
+// factors given in sequence, everything reassembled after each change.  Matrix names carry the suffix "@<step>".
+static std::string run_sweep(const std::string& dir,const std::string& what,const std::vector<double>& ks) {
+    Out o;
+    std::unique_ptr<Geometry> geop = load_geometry(o,dir);
+    if (!geop) return o.s;
+    Geometry& geo = *geop;
+    std::vector<double> sigma0;
+    for (const auto& d : geo.domains()) sigma0.push_back(d.conductivity());
+    for (size_t step=0; step<ks.size(); ++step) {
+        size_t i = 0;
+        for (auto& d : geo.domains()) d.set_conductivity(ks[step]*sigma0[i++]);
+        o.suffix = "@"+std::to_string(step);
+        compute(o,dir,what,false,geo);
+    }
+    return o.s;
+}
+
+static void compute(Out& o,const std::string& dir,const std::string& what,const bool ops,const Geometry& geo) {
     const bool has_dip = exists(dir+"/dipoles.txt");
     if (want(what,"dec")) decisions(o,dir,geo);
 
@@ -147,7 +178,7 @@ static std::string run_model(const std::string& dir,const std::string& what,cons
 
     SymMatrix HM; bool hm_ok = false;
     guarded(o,"HeadMat",[&]{ HM = HeadMat(geo); if (ops) o.sym("HeadMat",HM); hm_ok = true; });
-    if (!hm_ok) return o.s;
+    if (!hm_ok) return;
     guarded(o,"cond",[&]{
         // eigenvalue range of the head matrix (symmetric): the conditioning the gains inherit (reported, and used to
         // recognise a numerically singular system)
@@ -161,7 +192,7 @@ static std::string run_model(const std::string& dir,const std::string& what,cons
     });
     SymMatrix HMi; bool inv_ok = false;
     guarded(o,"HeadMatInv",[&]{ HMi = SymMatrix(HM,DEEP_COPY); HMi.invert(); if (ops) o.sym("HeadMatInv",HMi); inv_ok = true; });
-    if (!inv_ok) return o.s;
+    if (!inv_ok) return;
 
     Matrix dipoles, DSM; bool dsm_ok = false;
     if (has_dip)
@@ -239,7 +270,7 @@ static std::string run_model(const std::string& dir,const std::string& what,cons
                 const GainMEG G(HMi,SSM,Head2MEGMat(geo,sq),SS2M); o.mat("GainSurfSourceMEG",G);
             }
         });
-    return o.s;
+    return;
 }
 
 // ------------------------------------------------------------------ kernels (float wire)
@@ -291,6 +322,15 @@ static FWire kern(Reader& r,FReader& f) {
     return o;
 }
 
+// Everything the library prints while a case runs (std::cout, printf, puts ...) goes to /dev/null at the file-descriptor
+// level, so that the only bytes on the real stdout are the result lines (one per case).
+struct FdSilence {
+    static int real_fd() { static int fd = dup(1); return fd; }
+    static int null_fd() { static int fd = open("/dev/null",O_WRONLY); return fd; }
+    FdSilence()  { real_fd(); fflush(stdout); std::cout.flush(); dup2(null_fd(),1); }
+    ~FdSilence() { fflush(stdout); std::cout.flush(); dup2(real_fd(),1); }
+};
+
 int main(int argc,char** argv) {
     if (argc<2) { fprintf(stderr,"usage: h_c02 cases.txt\n"); return 2; }
     std::ifstream in(argv[1]);
@@ -299,15 +339,18 @@ int main(int argc,char** argv) {
     while (std::getline(in,line)) {
         std::istringstream ls(line);
         std::string cmd; ls >> cmd;
-        if (cmd=="gains" || cmd=="ops") {
+        if (cmd=="gains" || cmd=="ops" || cmd=="sweep") {
             std::string dir, what; ls >> dir >> what;
+            std::vector<double> ks;
+            if (cmd=="sweep") { std::string t; while (ls >> t) ks.push_back(strtod(t.c_str(),nullptr)); }
             std::string res;
             // watchdog: a case that hangs (e.g. the random-probe loop of is_mesh_orientations_coherent when every solid
             // angle is zeroed) kills the process; the runner attributes the crash to this case and restarts
             alarm(getenv("H_C02_ALARM") ? atoi(getenv("H_C02_ALARM")) : 60);
             {
+                FdSilence fs;
                 Silence s;
-                try { res = run_model(dir,what,cmd=="ops"); }
+                try { res = (cmd=="sweep") ? run_sweep(dir,what,ks) : run_model(dir,what,cmd=="ops"); }
                 catch (...) { res = "crash 3 0 0"; }
             }
             alarm(0);
@@ -320,7 +363,7 @@ int main(int argc,char** argv) {
                 if (fl) f.push_back(strtod(tok.c_str(),nullptr)); else w.push_back(atoll(tok.c_str()));
             }
             FWire out;
-            try { Silence s; Reader r(w); FReader fr(f); out = kern(r,fr); }
+            try { FdSilence fs; Silence s; Reader r(w); FReader fr(f); out = kern(r,fr); }
             catch (Reader::Malformed&) { out = FWire{Wire{-1},{}}; }
             catch (std::invalid_argument&) { out = FWire{Wire{ST_ASSERT},{}}; }
             catch (...) { out = FWire{Wire{ST_OTHER},{}}; }
